@@ -1128,9 +1128,23 @@ struct World {
                 break;
             }
             uint64_t bits[8] = {0};
-            int rcode = guarded(op, [&] { ops_of(A.stack).lookup(A.obj, x.data(), bits); }, what, fired);
+            // half of the lookups use the at(x, y, z) form of the view, half at(coordinate_t)
+            bool va = ops_of(A.stack).lookup_va != nullptr && ((op.vseed >> 9) & 1) != 0;
+            int rcode = guarded(
+                op,
+                [&] {
+                    if (va)
+                        ops_of(A.stack).lookup_va(A.obj, x.data(), bits);
+                    else
+                        ops_of(A.stack).lookup(A.obj, x.data(), bits);
+                },
+                what,
+                fired
+            );
             executed = true;
             cnt.inc("lookup.executed");
+            if (va)
+                cnt.inc("probe.lookup_through_the_scalar_argument_form");
             if (cr.defaulted)
                 cnt.inc("lookup.defaulted");
             if (!expect_no_throw(rcode, A.stack))
@@ -1156,6 +1170,40 @@ struct World {
                         std::printf(" %016llx", (unsigned long long)bits[j]);
                     std::printf("\n");
                 }
+            }
+            if (ops_of(A.stack).lookup_va != nullptr) {
+                // the view's two lookup forms, at(coordinate_t) and at(x, y, ...), are one function
+                uint64_t other[8] = {0};
+                std::string what2;
+                bool fired2 = false;
+                int rc2 = guarded(
+                    op,
+                    [&] {
+                        if (va)
+                            ops_of(A.stack).lookup(A.obj, x.data(), other);
+                        else
+                            ops_of(A.stack).lookup_va(A.obj, x.data(), other);
+                    },
+                    what2,
+                    fired2
+                );
+                if (rc2 && !fired2) {
+                    violate(opi, "unexpected-throw", A.stack, name, what2);
+                    return;
+                }
+                Scal os = d.layers[0].out_scal;
+                for (int j = 0; j < od && !rc2; ++j) {
+                    bool n1 = os == SC_F32 ? std::isnan(bits_f32(bits[j])) : (os == SC_F64 ? std::isnan(bits_f64(bits[j])) : false);
+                    bool n2 = os == SC_F32 ? std::isnan(bits_f32(other[j])) : (os == SC_F64 ? std::isnan(bits_f64(other[j])) : false);
+                    if ((n1 && n2) || bits[j] == other[j])
+                        continue;
+                    std::ostringstream o2;
+                    o2 << "at(coordinate_t) and at(scalar...) of the same view disagree in component " << j << ": 0x" << std::hex << (va ? other[j] : bits[j])
+                       << " vs 0x" << (va ? bits[j] : other[j]);
+                    violate(opi, "value-mismatch", A.stack, name, o2.str());
+                    return;
+                }
+                cnt.inc("lookup.both_forms_compared");
             }
             if ((int)cr.cell.size() == d.N && d.N > 0 && !cr.defaulted) {
                 // No interpolation arithmetic between the view and the storage: the chain ends in
